@@ -439,6 +439,28 @@ thread_local! {
     static LIFE_NEXT: Cell<u64> = const { Cell::new(1) };
     static LIFE_FAULT: RefCell<Option<String>> = const { RefCell::new(None) };
     static LIFE_EVENTS: Cell<u64> = const { Cell::new(0) };
+    /// injected fault: the comparison with this ordinal number (counted from 1 since the last reset) panics
+    static LIFE_PANIC_AT: Cell<u64> = const { Cell::new(0) };
+    static LIFE_CMPS: Cell<u64> = const { Cell::new(0) };
+}
+pub const INJECTED_PANIC: &str = "VERIF injected panic in the element's comparison";
+fn life_cmp_tick() {
+    let n = LIFE_CMPS.with(|c| {
+        c.set(c.get() + 1);
+        c.get()
+    });
+    if LIFE_PANIC_AT.with(|p| p.get()) == n {
+        panic!("{}", INJECTED_PANIC);
+    }
+}
+/// make the k-th comparison of `Res` values from now on panic (0 = never)
+pub fn life_panic_at(k: u64) {
+    LIFE_CMPS.with(|c| c.set(0));
+    LIFE_PANIC_AT.with(|p| p.set(k));
+}
+/// comparisons of `Res` values since the last `life_panic_at` / `life_reset`
+pub fn life_comparisons() -> u64 {
+    LIFE_CMPS.with(|c| c.get())
 }
 #[derive(Debug)]
 pub struct Res {
@@ -487,6 +509,7 @@ impl Drop for Res {
 impl PartialEq for Res {
     fn eq(&self, o: &Self) -> bool {
         step();
+        life_cmp_tick();
         life_check(self.id, self.key, "comparison");
         life_check(o.id, o.key, "comparison");
         self.key == o.key
@@ -501,6 +524,7 @@ impl PartialOrd for Res {
 impl Ord for Res {
     fn cmp(&self, o: &Self) -> std::cmp::Ordering {
         step();
+        life_cmp_tick();
         life_check(self.id, self.key, "comparison");
         life_check(o.id, o.key, "comparison");
         self.key.cmp(&o.key)
@@ -523,6 +547,8 @@ pub fn life_reset() {
     LIFE_LIVE.with(|l| l.borrow_mut().clear());
     LIFE_FAULT.with(|f| *f.borrow_mut() = None);
     LIFE_EVENTS.with(|e| e.set(0));
+    LIFE_CMPS.with(|c| c.set(0));
+    LIFE_PANIC_AT.with(|p| p.set(0));
 }
 /// first lifecycle fault since the last reset
 pub fn life_fault() -> Option<String> {
